@@ -163,6 +163,12 @@ CORRUPTIONS = [
     ("Display", '#[display("a")] #[display("b")] struct S(u8);', "duplicate"), ("Display", '#[display(rename_all = "snake_case")] #[display(rename_all = "UPPERCASE")] enum E { A }', "duplicate"),
     ("TryFrom", "#[try_from(repr)] #[try_from(repr)] #[repr(u8)] enum E { A }", "duplicate"), ("Into", "struct S { #[into(skip)] #[into(skip)] a: u8, b: u8 }", "duplicate"),
     ("From", "#[from] #[from] struct S(u8);", "duplicate"),
+    # a second attribute of the same name after a *bare* first one (added after seed C17-j: the early return for the bare form
+    # must not skip the one-attribute check)
+    ("Deref", "struct S { #[deref] #[deref(ignore)] a: Box<u8>, b: u8 }", "duplicate"), ("Index", "struct S { #[index] #[index] a: Vec<u8>, b: u8 }", "duplicate"),
+    ("TryInto", "enum E { #[try_into] #[try_into(ignore)] A(u8), B(u16) }", "duplicate"), ("Error", "struct S { #[error] #[error(not(source))] source: E1 }", "duplicate"),
+    ("Unwrap", "enum E { #[unwrap] #[unwrap(ignore)] A(u8) }", "duplicate"), ("IntoIterator", "struct S { #[into_iterator] #[into_iterator(bogus)] a: Vec<u8>, b: u8 }", "duplicate"),
+    ("DerefMut", "struct S(#[deref_mut] #[deref_mut(forward)] Box<u8>, u8);", "duplicate"), ("IsVariant", "enum E { #[is_variant] #[is_variant(ignore)] A, B }", "duplicate"),
     # contradicting another one on the same item
     ("Error", "struct S { #[error(source, not(source))] a: E1 }", "conflict"), ("Error", "struct S { #[error(not(backtrace), backtrace)] a: E1 }", "conflict"),
     ("Deref", "#[deref(forward, not(forward))] struct S(Box<u8>);", "conflict"), ("From", "#[from(forward)] #[from(u8)] struct S(u16);", "conflict"),
